@@ -1,6 +1,7 @@
 //go:build verif
 
-// C01 — JWS side (harness in ../C07/jws_verify.go)
+// C02 — JWS verify side: the algorithm golang-jwt verifies under is the one the envelope reports, which is the leaf
+// key's row (harness in ../C07/jws_verify.go; the case-variant harness is where the two could differ)
 //verif:pkg signature/jws
 //verif:include ../C07/jws_env.go
 //verif:include ../C07/jws_content.go
